@@ -83,6 +83,11 @@ impl Rng {
         }
         v
     }
+    /// random bytes of random length < max
+    pub fn bytes_upto(&mut self, max: usize) -> Vec<u8> {
+        let n = self.usize(max.max(1));
+        self.bytes(n)
+    }
     pub fn fork(&mut self) -> Rng {
         Rng::new(self.next())
     }
